@@ -185,7 +185,7 @@ def run(tier, seed):
             seen.add(text)
             items.append((fn, text, req))
         values = {(c, r): book.data[0][r][c] for r in range(book.h[0]) for c in range(book.w[0]) if book.data[0][r][c] is not None}
-        outs = realcode.eval_formulas([t for _, t, _ in items], values, extra_sheets=[(book.title1, book.data[1])], min_rows=per)
+        outs = realcode.eval_formulas([t for _, t, _ in items], values, extra_sheets=[(book.title1, book.data[1])], min_rows=per, min_fcol=book.w[0] + 2)
         # formulas sit in column fcol = w0 + 1 of sheet 0 and make the sheet `per` rows high: whole-column areas of sheet 0 see `nrows0` rows
         by_fn = {}
         for (fn, text, req), got in zip(items, outs):
@@ -221,7 +221,7 @@ def run(tier, seed):
         twin_sheets_law(chk, rng, b)
         if special:
             text_is_ignored_law(chk, rng, book, b)
-        lo = realcode.eval_formulas(laws, values, extra_sheets=[(book.title1, book.data[1])], min_rows=per)
+        lo = realcode.eval_formulas(laws, values, extra_sheets=[(book.title1, book.data[1])], min_rows=per, min_fcol=book.w[0] + 2)
         for i in range(0, len(laws), 2):
             chk.count('law:split')
             chk.seen(('split', b, laws[i]))
@@ -276,8 +276,8 @@ def text_is_ignored_law(chk, rng, book, b):
     if not forms:
         return
     vals = lambda d: {(c, r): d[r][c] for r in range(len(d)) for c in range(len(d[r])) if d[r][c] is not None}
-    a = realcode.eval_formulas(forms, vals(book.data[0]), min_rows=10)
-    z = realcode.eval_formulas(forms, vals(data0), min_rows=10)
+    a = realcode.eval_formulas(forms, vals(book.data[0]), min_rows=10, min_fcol=book.w[0] + 2)
+    z = realcode.eval_formulas(forms, vals(data0), min_rows=10, min_fcol=book.w[0] + 2)
     for f, x, y in zip(forms, a, z):
         chk.count('law:text-is-ignored')
         chk.seen(('textignored', b, f))
